@@ -307,7 +307,9 @@ def r_labeledit(prog, tier):
     if len(eds) < 2:
         obs.append(Ob('R-LABELEDIT', f.fq, 'index stripping in ptb_delete_traces', None,
                       '%d parse_label/format_label sequences recognised (2 expected)' % len(eds), construct='ptb-shape'))
+    wrongflag = None
     for (var, pn, fm, edits) in eds:
+        wrongflag = None
         g_ok = 'gapindex' in edits and any(not extra for (_, extra) in edits['gapindex'])
         if not g_ok and 'gapindex' in edits:
             g_ok = False            # removed only under some condition
@@ -327,9 +329,22 @@ def r_labeledit(prog, tier):
                 c_ok = False        # removed unconditionally: keepcoindex is ignored
             else:
                 c_ok = None
+                # positive evidence: the removal is switched by another option flag
+                flagdefs = {}
+                for nm2 in f.locals:
+                    for (_, v) in name_defs(f, nm2):
+                        if isinstance(v, ast.AST) and unparse(v).endswith(' in %s' % f.kwarg) and unparse(v).startswith("'"):
+                            flagdefs[nm2] = unparse(v).split("'")[1]
+                for (_, extra) in edits['coindex']:
+                    others = [fa for fa in extra if (fa[0] == 'truthy' and fa[1] in flagdefs and flagdefs[fa[1]] != 'keepcoindex')
+                              or (fa[0] == 'haskey' and fa[1] == f.kwarg and fa[2] != 'keepcoindex')]
+                    if others and len(others) == len(extra):
+                        c_ok = False
+                        wrongflag = flagdefs.get(others[0][1], others[0][2] if others[0][0] == 'haskey' else others[0][1])
         obs.append(Ob('R-LABELEDIT', f.fq, 'co-index of `%s` is removed unless keepcoindex is given' % var, c_ok,
                       '`%s.coindex = ""` exactly under `not keepcoindex`' % var if c_ok else
-                      'co-index removal is missing or depends on something else than keepcoindex',
+                      'co-index removal is missing or depends on something else than keepcoindex' + (
+                          ' (it is switched by the option %r)' % wrongflag if c_ok is False and wrongflag else ''),
                       construct='ptb-co:' + var, line=pn.lineno))
     # the constituent loop rewrites the label of every constituent
     loops = [n for n in cfg.eval_nodes() if n.kind == 'iter' and unparse(n.ast.iter) == 'trees.preorder(%s)' % f.params[0]]
